@@ -5,6 +5,10 @@
 (* the property layer P of BurnRedirect (verdict) and against the as-built machine M         *)
 (* (diagnostic).  Deterministic and total: every line is consumed, the model                 *)
 (* re-synchronises on the logged state, violations are accumulated as signatures.            *)
+(* The configuration of the chain (post.env, read from the parameter stores after every      *)
+(* call) changes during the histories through passed proposals; P does not read it, M takes  *)
+(* the slash fractions and the gov burn switches in force before the call from it, and the   *)
+(* checked slashes / deposit burns are counted per configuration class (cnt, "kind/class").  *)
 EXTENDS BurnRedirect
 
 VARIABLES l, viol, div, nscn, par, cnt
@@ -12,16 +16,27 @@ tvars == <<st, hist, ops, l, viol, div, nscn, par, cnt>>
 
 Trace == ndJsonDeserialize("trace.ndjson")
 
-Sig(kind, class, e) == [prop |-> "C14", kind |-> kind, class |-> class, scn |-> e.scn, line |-> l]
+\* under: the configuration classes in force before the failing call (diagnostic, not part of the signature)
+Sig(kind, class, e, under) == [prop |-> "C14", kind |-> kind, class |-> class, scn |-> e.scn, line |-> l, under |-> under]
 
 \* sdk.Dec values are logged as truncated integer and 18-digit fraction
 Dec(c) == BigAdd(BigMul(c.t, E18), c.f)
 Norm(p) == [p EXCEPT !.community   = [d \in DOMAIN @ |-> Dec(@[d])],
                      !.outstanding = [d \in DOMAIN @ |-> Dec(@[d])]]
 
-ParOf(e) == [fd |-> <<e.par.fracDouble, E18>>, ft |-> <<e.par.fracDowntime, E18>>, pr |-> e.par.powerReduction,
-             bond |-> e.par.bondDenom, burnVeto |-> e.par.burnVeto, burnPrevote |-> e.par.burnPrevote,
-             burnQuorum |-> e.par.burnQuorum]
+\* the staking / slashing parameters in force after a line (= before the next call)
+ParOf(env) == [fd |-> <<env.fracDouble, E18>>, ft |-> <<env.fracDowntime, E18>>, pr |-> env.powerReduction,
+               bond |-> env.bondDenom]
+
+EnvClassNames == {"sendOff", "tax0", "tax1", "erc20Off", "nonDepositDenom"}
+Under(e, s, t) ==
+    LET cs == EnvClasses(s.env, LAMBDA d : IF IsControl(e) THEN e.args.burn[d] ELSE Destroyed(e, s, t, d), D(s)) IN
+    IF cs = {} THEN "default"
+    ELSE Tag(cs, "sendOff") \o Tag(cs, "tax0") \o Tag(cs, "tax1") \o Tag(cs, "erc20Off") \o Tag(cs, "nonDepositDenom")
+CovKeys(e, s, t) ==
+    (IF StepKind(e) \in {"slash", "deposit-burn"}
+     THEN {StepKind(e) \o "/" \o c : c \in EnvClasses(s.env, LAMBDA d : Destroyed(e, s, t, d), D(s))} ELSE {})
+    \cup (IF s.env # t.env THEN {"paramchange"} ELSE {})
 
 \* M, diagnostic: the slashes of a BeginBlock as staking's Slash would perform them on the
 \* logged pre-state, compared with what the staking records lost
@@ -45,15 +60,16 @@ MDiv(e, s, t) ==
       [] e.ev = "end" ->
            {[ev |-> "end", class |-> e.rep.ended[i].outcome, scn |-> e.scn, line |-> l, what |-> "burn-decision"] :
               i \in {j \in DOMAIN e.rep.ended :
-                       e.rep.ended[j].burn # (CASE e.rep.ended[j].outcome = "veto"     -> par.burnVeto
-                                                [] e.rep.ended[j].outcome = "expired"  -> par.burnPrevote
-                                                [] e.rep.ended[j].outcome = "noquorum" -> par.burnQuorum
+                       e.rep.ended[j].burn # (CASE e.rep.ended[j].outcome = "veto"     -> s.env.burnVeto
+                                                [] e.rep.ended[j].outcome = "expired"  -> s.env.burnPrevote
+                                                [] e.rep.ended[j].outcome = "noquorum" -> s.env.burnQuorum
                                                 [] OTHER -> FALSE)}}
       [] OTHER -> {}
 
 TraceInit ==
     /\ l = 1 /\ viol = {} /\ div = {} /\ nscn = 0 /\ par = <<>>
-    /\ cnt = [k \in {"slash", "deposit-burn", "control-burn", "begin-block", "end-block", "tx"} |-> 0]
+    /\ cnt = [k \in {"slash", "deposit-burn", "control-burn", "begin-block", "end-block", "tx", "paramchange"}
+                      \cup {k \o "/" \o c : k \in {"slash", "deposit-burn"}, c \in EnvClassNames} |-> 0]
     /\ st = <<>> /\ hist = <<>> /\ ops = <<>>
 
 TraceNext ==
@@ -65,17 +81,19 @@ TraceNext ==
        /\ UNCHANGED <<hist, ops>>
        /\ CASE e.ev = "reset" ->
                  /\ nscn' = nscn + 1
-                 /\ par' = ParOf(e)
-                 /\ viol' = viol \cup {Sig("init:" \o n, "-", e) : n \in BrokenInvariants(post)}
+                 /\ par' = ParOf(post.env)
+                 /\ viol' = viol \cup {Sig("init:" \o n, "-", e, "-") : n \in BrokenInvariants(post)}
                  /\ UNCHANGED <<div, cnt>>
             [] e.ev = "skip" ->
                  UNCHANGED <<nscn, par, viol, div, cnt>>
             [] OTHER ->
-                 /\ UNCHANGED <<nscn, par>>
-                 /\ cnt' = [cnt EXCEPT ![StepKind(e)] = @ + 1]
+                 /\ UNCHANGED nscn
+                 /\ par' = ParOf(post.env)
+                 /\ cnt' = [k \in DOMAIN cnt |-> cnt[k] + (IF k = StepKind(e) THEN 1 ELSE 0)
+                                                        + (IF k \in CovKeys(e, st, post) THEN 1 ELSE 0)]
                  /\ viol' = viol
-                      \cup {Sig(StepKind(e) \o ":" \o c, StepClass(e), e) : c \in StepBroken(e, st, post)}
-                      \cup {Sig(n, StepClass(e), e) : n \in BrokenInvariants(post) \ BrokenInvariants(st)}
+                      \cup {Sig(StepKind(e) \o ":" \o c, StepClass(e), e, Under(e, st, post)) : c \in StepBroken(e, st, post)}
+                      \cup {Sig(n, StepClass(e), e, Under(e, st, post)) : n \in BrokenInvariants(post) \ BrokenInvariants(st)}
                  /\ div' = div \cup MDiv(e, st, post)
 
 TraceSpec == TraceInit /\ [][TraceNext]_tvars
